@@ -1834,7 +1834,7 @@ class NodeRequire:
                 if name.startswith("_"):
                     continue  # skip private module symbols
                 environment.put(name, moduleEnv.get(name))
-        elif self.symbols:
+        elif self.symbols is not None:
             for name in moduleEnv.getLocalSymbols():
                 if name.startswith("_"):
                     continue  # skip private module symbols
